@@ -16,6 +16,34 @@ VIEW_METHODS = ('expand', 'view', 'reshape', 'squeeze', 'unsqueeze', 'detach', '
 SCALAR_ANN = ('int', 'float', 'bool', 'str')
 
 
+_ACCESSORS = None
+
+
+def accessor_names(ctx) -> set:
+    """names of the argument-less methods of the package that hand out stored state: some class defines `def m(self): … return self._attr` (possibly a
+    view of it).  A call `obj.m()` of such a name is another name for what `obj` caches, not a new tensor."""
+    out = set()
+    for ci in ctx.classes.classes.values():
+        for b in ci.node.body:
+            if not isinstance(b, ast.FunctionDef) or len(b.args.args) != 1 or b.args.vararg or b.args.kwarg or b.name.startswith('__'):
+                continue
+            if any(ast.unparse(d) in ('property', 'staticmethod', 'classmethod', 'abstractmethod', 'abc.abstractmethod') for d in b.decorator_list):
+                continue
+            for r in ast.walk(b):
+                if isinstance(r, ast.Return) and r.value is not None:
+                    v = r.value
+                    while True:
+                        if isinstance(v, ast.Call) and isinstance(v.func, ast.Attribute) and v.func.attr in VIEW_METHODS:
+                            v = v.func.value
+                        elif isinstance(v, ast.Subscript):
+                            v = v.value
+                        else:
+                            break
+                    if isinstance(v, ast.Attribute) and isinstance(v.value, ast.Name) and v.value.id == 'self':
+                        out.add(b.name)
+    return out
+
+
 def fresh(e, fn, depth=0) -> bool:
     """the expression builds a new tensor (or is a plain number), it is not another name for stored state or for an argument"""
     if isinstance(e, ast.Constant):
@@ -27,6 +55,8 @@ def fresh(e, fn, depth=0) -> bool:
     if isinstance(e, ast.Call):
         if isinstance(e.func, ast.Attribute) and e.func.attr in VIEW_METHODS:
             return fresh(e.func.value, fn, depth)
+        if _ACCESSORS and isinstance(e.func, ast.Attribute) and e.func.attr in _ACCESSORS and not e.args and not e.keywords:
+            return False                           # obj.rates(), obj.probabilities() …: the tensor the object caches
         return True
     if isinstance(e, ast.Subscript):
         return fresh(e.value, fn, depth)          # indexing / slicing gives a view
@@ -47,6 +77,15 @@ def fresh(e, fn, depth=0) -> bool:
 def check_alias_mutation(ctx, rep, rule: str, scope: Callable, label='', index_stores: bool = False) -> int:
     """scope(module, class name or None, function) -> bool; index_stores: also `name[…] = v` / `name[…] op= v` (writes into the tensor the name refers to)"""
     n = 0
+    global _ACCESSORS
+    if getattr(ctx, '_accessor_names', None) is None:
+        ctx._accessor_names = accessor_names(ctx)
+    _ACCESSORS = ctx._accessor_names
+    if True:
+        if not {'rates', 'probabilities'} <= _ACCESSORS:
+            from .loader import AnalysisError
+            raise AnalysisError(f"accessor inference no longer finds SiteModel.rates / probabilities (found {sorted(_ACCESSORS)[:20]})")
+    rep.analysed['accessor_methods_returning_stored_state'] = sorted(_ACCESSORS)
     for m in ctx.prog.modules.values():
         fns = []
         for cname, cnode in m.classes.items():
